@@ -4,10 +4,9 @@ SPEC = {
     "lean_props": "Hive.Props.C01",
     "lean_namespace": "Hive.Serix",
     "theorem_prefix": "C01",
-    "driver": "drv_c01",
-    "harness": "c01",
+    "parts": [{"driver": "drv_c01", "harness": "c01"}, {"driver": "drv_c01", "harness": "c01/obj"}],
     "theorems": ["C01_decode_encode", "C01_decode_encode_exact", "C01_encode_perm_invariant", "C01_encode_order_irrelevant", "C01_decode_encode_any_order",
-                 "C01_encode_no_panic", "C01_prim_roundtrip", "C01_prim_chain_roundtrip", "C01_prim_payloadLen_roundtrip", "C01_prim_num_unsigned", "C01_prim_num_signed", "C01_prim_time_saturates", "C01_optional_empty_witness", "C01_time_keys_witness", "C01_autosort_array_keys_witness",
+                 "C01_encode_no_panic", "C01_prim_roundtrip", "C01_prim_chain_roundtrip", "C01_prim_payloadLen_roundtrip", "C01_prim_num_unsigned", "C01_prim_num_signed", "C01_prim_time_saturates", "C01_obj_roundtrip", "C01_payload_roundtrip", "C01_payload_nil_roundtrip", "C01_objslice_roundtrip", "C01_optional_empty_witness", "C01_time_keys_witness", "C01_autosort_array_keys_witness",
                  "C01_binary_statement_fails_witness"],
     "trusted_base": ["hand-written model Hive/Model/Serix.lean of serializer/serix/{encode,decode}.go over serializer/serializer.go, tied by differential execution (harness/c01, harness/serixgen)",
                      "schema derivation by reflection harness/serixgen/derive.go (mirrors the TypeSettings merge of serix with the public accessors)",
